@@ -128,6 +128,7 @@ func conc(args []string) {
 		nsched++
 		// ---- setup (unscheduled goroutine): shared machines and sequential references
 		machines := map[string]*xpath.Machine{}
+		loose := map[string]bool{}
 		refListing := map[string]string{}
 		for _, e := range s.Comps {
 			if _, ok := refListing[e]; !ok {
@@ -156,6 +157,16 @@ func conc(args []string) {
 				}
 				machines[e] = m
 				refRes[e] = plainRun(m) // history: one run before the concurrent ones
+			}
+			// the schedule has one step per instruction of the specification's program
+			want := 0
+			for _, st := range s.Steps {
+				if st.P == p && st.A == "step" {
+					want++
+				}
+			}
+			if prog, _ := xpm.ParseListing(machines[e].PrintMachine()); !xpm.Recognised(prog) || len(prog) != want {
+				loose[e] = true
 			}
 		}
 		// ---- processes
@@ -322,6 +333,22 @@ func conc(args []string) {
 			}
 			nsteps++
 			pr := procs[st.P]
+			if pr.kind == "run" && loose[pr.expr] {
+				// the machine's listing is not the specification's program (reworded or regrouped instructions): the
+				// runner is still interleaved one trace point per scheduled step, but its trace points are not matched
+				if !pr.fin {
+					letGo(st.P)
+					a, ok := waitFor(st.P, waitLong)
+					if !ok {
+						infra(fmt.Sprintf("process %d did not reach a trace point", st.P))
+					}
+					note(st.P, a)
+					if a.pan != "" {
+						report(ConcOut{nsched, nsteps, "process panicked", "panic", a.pan})
+					}
+				}
+				continue
+			}
 			if pr.fin {
 				report(ConcOut{nsched, nsteps, fmt.Sprintf("process %d (%s %s) finished although the specification has further steps for it (%s)", st.P, pr.kind, pr.expr, st.A), "trace-point-order", ""})
 				aborted = true
